@@ -1795,6 +1795,16 @@ impl<'a, 'c> G<'a, 'c> {
         }
         conway::Update { proposed_protocol_parameter_updates: m, epoch: self.s.u64e() }
     }
+    pub fn set_of_inputs(&mut self) -> Set<TransactionInput> {
+        self.s.hand("Set");
+        let v = self.vecn(0, 3, |g| g.input());
+        self.s.class(format!("value:Set:{}", if v.is_empty() { "empty" } else { "nonempty" }));
+        Set::from(v)
+    }
+    pub fn nonempty_set_of_hashes(&mut self) -> NonEmptySet<Hash<28>> {
+        self.s.class("value:NonEmptySet");
+        self.nes(3, |g| g.hash28())
+    }
     pub fn babbage_language(&mut self) -> babbage::Language {
         match self.s.variant("babbage::Language", 2) {
             0 => babbage::Language::PlutusV1,
